@@ -319,7 +319,7 @@ func (x *Exec) builtin(st *State, fr *Frame, bi *ssa.Builtin, args []Val, in ssa
 	case "len":
 		a := args[0]
 		if a.K == KSlice {
-			return Val{K: KInt, T: sLen(a.T), Typ: types.Typ[types.Int], Lo: big.NewInt(0), Hi: new(big.Int).Lsh(big.NewInt(1), 47)}
+			return Val{K: KInt, T: sLen(a.T), Typ: types.Typ[types.Int], Lo: big.NewInt(0), Hi: new(big.Int).Lsh(big.NewInt(1), 46)}
 		}
 		if a.K == KPtr && a.Ptr != nil && a.Ptr.IsArr {
 			return Val{K: KInt, T: fmt.Sprint(a.Ptr.ArrLen), Typ: types.Typ[types.Int]}
@@ -328,7 +328,7 @@ func (x *Exec) builtin(st *State, fr *Frame, bi *ssa.Builtin, args []Val, in ssa
 	case "cap":
 		a := args[0]
 		if a.K == KSlice {
-			return Val{K: KInt, T: sCap(a.T), Typ: types.Typ[types.Int], Lo: big.NewInt(0), Hi: new(big.Int).Lsh(big.NewInt(1), 47)}
+			return Val{K: KInt, T: sCap(a.T), Typ: types.Typ[types.Int], Lo: big.NewInt(0), Hi: new(big.Int).Lsh(big.NewInt(1), 46)}
 		}
 		bail("cap of %v", a.Typ)
 	case "append":
